@@ -18,16 +18,18 @@ import (
 
 type c19kCase struct {
 	Delays   []int64 `json:"delays_ns"`
-	Consumer int64   `json:"consumer_ns"` // how long the queue takes to accept an event
+	Consumer int64   `json:"consumer_ns"`        // how long the queue takes to accept an event
+	Start    int64   `json:"start_ns,omitempty"` // the consumer only starts receiving after this long (event sources not started yet)
 }
 
 func TestVerifC19FRRK8s(t *testing.T) {
 	const interval = int64(3 * time.Second)
 	vw.Run(t, vw.Options{Property: "C19", Engine: "frrk8s-debouncer",
-		Rule:        "1..12 UpdateConfig signals at inter-arrival times around the 3 s window (+-1 ns, equal, multiples) and a consumer that accepts events after 0..2 s, on the virtual clock; one reload event per window, at least one event after the last signal, bounded blocking; non-trivial = >=2 signals inside one window",
+		Rule:        "1..12 UpdateConfig signals at inter-arrival times around the 3 s window (+-1 ns, equal, multiples) and a consumer that accepts events after 0..7 s (i.e. may still be busy when the next window expires) and may start late, on the virtual clock; one reload event per window, at least one event after the last signal, bounded blocking; non-trivial = >=2 signals inside one window",
 		Assumptions: []string{"go1.26.8 testing/synctest", "the reconciler reads the latest desired configuration when the event is handled, so one event after the last update suffices"}},
 		func(rt *rapid.T) c19kCase {
-			c := c19kCase{Consumer: rapid.SampledFrom([]int64{0, 0, 1, int64(time.Second), int64(2 * time.Second)}).Draw(rt, "consumer")}
+			c := c19kCase{Consumer: rapid.SampledFrom([]int64{0, 0, 1, int64(time.Second), int64(2 * time.Second), int64(4 * time.Second), int64(7 * time.Second)}).Draw(rt, "consumer"),
+				Start: rapid.SampledFrom([]int64{0, 0, 0, int64(2 * time.Second), int64(5 * time.Second)}).Draw(rt, "start")}
 			marks := []int64{0, 1, int64(time.Millisecond), interval - 1, interval, interval + 1, interval / 2, 2 * interval, int64(10 * time.Second)}
 			for i, n := 0, rapid.IntRange(1, 12).Draw(rt, "n"); i < n; i++ {
 				c.Delays = append(c.Delays, rapid.SampledFrom(marks).Draw(rt, "delay"))
@@ -44,6 +46,7 @@ func TestVerifC19FRRK8s(t *testing.T) {
 				debouncer(in, out, time.Duration(interval))
 				done := make(chan struct{})
 				go func() {
+					time.Sleep(time.Duration(c.Start))
 					for {
 						select {
 						case <-out:
@@ -63,7 +66,7 @@ func TestVerifC19FRRK8s(t *testing.T) {
 					sent = append(sent, now())
 					latency = append(latency, now()-t0)
 				}
-				time.Sleep(time.Duration(4*interval + 4*c.Consumer))
+				time.Sleep(time.Duration(4*interval + 4*c.Consumer + c.Start))
 				close(in)
 				close(done)
 				synctest.Wait()
@@ -78,7 +81,7 @@ func TestVerifC19FRRK8s(t *testing.T) {
 				tr.NonTrivial()
 			}
 			for i, l := range latency {
-				if l > c.Consumer {
+				if l > c.Consumer+c.Start {
 					return vw.Violationf("updateconfig-blocked", "signal %d was blocked for %v (consumer takes %v)", i, time.Duration(l), time.Duration(c.Consumer))
 				}
 			}
